@@ -14,6 +14,7 @@ from engine import pat
 from engine.util import own_nodes, calls_with_nodes, where
 
 RULES = {
+    "R-05.13": "optional trailing fields are left out only when ALL of them have their default: the guard that prints LOC's size/precision tail is a disjunction of `!= default` tests (one per field the tail holds), because the reader refills every missing field with its default",
     "R-05.12": "base32 text written without padding is padded back to the base32 quantum before decoding: NSEC3.from_text pads the next-hash to a multiple of 8 characters (RFC 4648), with the same modulus at the test and at the fill",
     "R-05.11": "an integer field printed through an enum's to_text (rcode, rdatatype, algorithm, scheme: ValueError outside 0..maximum) was bounded by the constructor to that enum's range: the field is built with the same enum's make(), or with an _as_uintN no wider than the enum's maximum",
     "R-05.10": "style keywords reach real style fields: every keyword BaseStyle.from_keywords translates a legacy to_text() keyword into (chunksize, separator) is a declared field of a style class, so building the style cannot raise TypeError for a documented option",
@@ -835,6 +836,19 @@ def run(model, rep, tier):
                                   f"self.{fld} is built by `{how}` (values up to {bound}) but printed with {E.name}.to_text, which raises ValueError above {emax}: "
                                   "a record accepted from the wire cannot be turned into text", stmt=f"enum-text {fld}")
     rep.floor("R-05.11", n_en, 5)
+    # ---------------------------------------------------------------- R-05.13
+    lt = model.func("dns.rdtypes.ANY.LOC.LOC.to_styled_text")
+    tails = [n for n in ast.walk(lt.node) if isinstance(n, ast.If) and sum(1 for a in atoms(normalise_compare(n.test)) if a[1] == "!=" and "_default_" in (a[2] + a[0])) >= 2]
+    if len(tails) != 1:
+        rep.blind("R-05.13", lt.qualname, where(lt, lt.node), "the guard of the optional size/precision tail (`x != _default_x or ...`) was not found", stmt="optional-tail")
+    else:
+        nc13 = normalise_compare(tails[0].test)
+        flds = sorted(a[0] for a in atoms(nc13))
+        printed = sorted({src(x) for b in tails[0].body for x in ast.walk(b) if isinstance(x, ast.Attribute) and src(x.value) == "self"})
+        rep.check(nc13[0] == "or" and all(a[1] == "!=" for a in atoms(nc13)) and set(flds) == set(printed), "R-05.13", lt.qualname, where(lt, tails[0]),
+                  f"the tail {printed} is printed as soon as any of them differs from its default",
+                  f"the tail {printed} is printed under `{src(tails[0].test)[:80]}` - not a plain `or` of one `!= default` test per printed field: a record where only some of them are non-default "
+                  "loses them in text and parses back to a different record", stmt="optional-tail")
     # ---------------------------------------------------------------- R-05.12
     n3 = model.func("dns.rdtypes.ANY.NSEC3.NSEC3.from_text")
     e12 = pat.Env()
@@ -856,6 +870,8 @@ def run(model, rep, tier):
 
 
 WITNESSES = [
+    {"id": "c05-loc-tail-needs-all-non-default", "rule": "R-05.13", "file": "dns/rdtypes/ANY/LOC.py", "expect": "fires",
+     "old": "            or self.horizontal_precision != _default_hprec\n            or self.vertical_precision != _default_vprec", "new": "            and self.horizontal_precision != _default_hprec\n            and self.vertical_precision != _default_vprec"},
     {"id": "c05-bitmap-window-256-accepted", "rule": "R-05.1", "file": "dns/rdtypes/util.py", "expect": "fires",
      "old": "            if window > 255:", "new": "            if window > 256:"},
     {"id": "c05-nsec3-padding-modulus-4", "rule": "R-05.12", "file": "dns/rdtypes/ANY/NSEC3.py", "expect": "fires",
